@@ -31,7 +31,7 @@ MANIFEST = dict(
           "1972..9998 and every time of day, incl. the seconds around a leap second; the same with an explicit "
           "leap_seconds in both directions; Delta-T stays within 3.5 s of 42.184 s + leap seconds for every month "
           "1972..2018 and jumps by < 1 s at every segment joint after -500 (kernel-evaluated on the rational model). "
-          "tt2ut equals, for EVERY year and month, the published Espenak-Meeus expression of its segment (Spec/DeltaT.lean, power form), each switch-over year on the later segment; in <-500, 500..1599, >=2150 the code evaluates it at the integer year (stated as coded); get_date(utc=False) = get_date(); the 1972 gate is the year, not the count. "
+          "tt2ut equals, for EVERY year and month, the published Espenak-Meeus expression of its segment (Spec/DeltaT.lean, power form), each switch-over year on the later segment; in <-500, 500..1599, >=2150 the code evaluates it at the integer year (stated as coded); get_date(utc=False) = get_date(); the 1972 gate is the year, not the count; read-back with utc=True unchanged before 1972; table shape (27 strictly increasing keys = IERS dates, k-th value k); a time of day outside 0<=h<24, 0<=min<60, 0<=s<60 (incl. 23:59:60) is refused with ValueError whatever the kwargs. "
           "Outside the documented domain: leap_seconds for ANY numeric year/month (floats, months outside 1..12) is "
           "characterised exactly (incl. the index wrap returning 27 and the IndexError); the local= paths are modelled with "
           "Epoch.utc2local() as a parameter: local absent/False = the modelled constructor, local=True = utc=True + offset, "
